@@ -252,6 +252,15 @@ func regImmShift(f binaryExprFunc, i instruction, bits uint8, w expr.Width) expr
 	return f(regLoad(rs1, i, w), immShift, w)
 }
 
+// signedRem calculates signed division remainder of e1 divided by e2 as
+// defined by RISC-V: the remainder has the sign of the dividend, the remainder
+// of division by zero is the dividend and the remainder of the overflowing
+// division is zero.
+func signedRem(e1, e2 expr.Expr, w expr.Width) expr.Expr {
+	div := exprtools.SignedDiv(e1, e2, w)
+	return exprtools.Sub(e1, expr.NewBinary(expr.Mul, div, e2, w), w)
+}
+
 func sext(e expr.Expr, signBit uint8, w expr.Width) expr.Expr {
 	return exprtools.SignExtend(e, expr.ConstFromUint(signBit), w)
 }
